@@ -312,3 +312,48 @@ Proof.
     destruct (Single q l Gq) as [c ->]. destruct Hq as [Ec|[]]. inversion Ec; subst c.
     destruct (Onto0 Nd q Gq) as [a [Ha Ea]]. exists a. split; [exact Ha|]. rewrite <- Ea. exact Pq.
 Qed.
+
+(** ---------------------------------------------------------------- in terms of the returned coarse-node graphs *)
+Lemma step_mol_m6 legacy aa fd prev car fo : resolve_step_full legacy aa fd prev car = Ok fo ->
+  forall k key, key <> S "atomname" -> node_get (fo_mol fo) k key = node_get (fo_m6 fo) k key.
+Proof.
+  intros H. unfold resolve_step_full in H. cbv zeta in H.
+  destruct (resolve_disconnected fd _) as [[m1 fg1]|]; cbn [bind] in H; [|discriminate H].
+  destruct (bonding_step legacy aa _ m1 fg1) as [[m2 fg2]|]; cbn [bind] in H; [|discriminate H].
+  destruct (Squash.squash_atoms m2) as [m3|]; cbn [bind] in H; [|discriminate H].
+  destruct (if aa then Hydrogens.rebuild_h_atoms_default m3 car else Ok m3) as [m4|]; cbn [bind] in H; [|discriminate H].
+  destruct (sort_nodes_by_attr m4) as [m5|]; cbn [bind] in H; [|discriminate H].
+  destruct (if aa then EzImpl.annotate_ez_isomers_cgsmiles m5 else Ok m5) as [m6|]; cbn [bind] in H; [|discriminate H].
+  destruct (annotate_fragments _ m6) as [f6|]; cbn [bind] in H; [|discriminate H].
+  destruct (if aa then set_atom_names m6 _ f6 else Ok (m6, f6)) as [[m7 f7]|] eqn:E8; cbn [bind] in H; [|discriminate H].
+  inversion H; subst fo. cbn [fo_mol fo_m6]. intros k key Hk. destruct aa.
+  - exact (ReturnedAnnot.set_atom_names_keeps _ _ _ _ _ E8 k key Hk).
+  - inversion E8; subst. reflexivity.
+Qed.
+Lemma node_get_gna g n a v : node_get g n a = Some v -> In (n, v) (get_node_attributes g a).
+Proof.
+  unfold node_get. destruct (gfind n g) as [r|] eqn:G; [|discriminate]. intros Hv. unfold get_node_attributes. apply in_flat_map.
+  exists r. split; [exact (gfind_in_graph _ _ _ G)|]. rewrite Hv, (gfind_key _ _ _ G). now left.
+Qed.
+(** the 'graph' attribute the step returns for coarse node mn contains, for EVERY template atom of mn's fragment, an atom whose
+    fragid lists mn's key and whose mapping lists (fragname, template atom) - also when atoms were squashed *)
+Theorem step_squashed_graphs legacy aa fd prev car fo : tmpl_dict fd -> wf_attrs fd -> NumTotal.hnum_dict fd ->
+  resolve_step_full legacy aa fd prev car = Ok fo ->
+  (forall es, base_edges (fo_meta fo) = Ok es -> wf_edges es) ->
+  (aa = true -> forall g1, car = Some g1 -> RebuildWf.all_no_rs g1) ->
+  forall pre mn post fv name frag g, fo_meta fo = pre ++ mn :: post ->
+  aget (S "fragname") (na mn) = Some fv -> lookup_fragment fd fv = Some (name, frag) -> In (nk mn, g) (fo_fgs fo) ->
+  forall n, In n frag -> exists y l lm, In y (node_keys g) /\
+    node_get (fo_mol fo) y (S "fragid") = Some (VList l) /\ In (VInt (nk mn)) l /\
+    node_get (fo_mol fo) y (S "mapping") = Some (VList lm) /\ In (mapping_entry name (nk n)) lm.
+Proof.
+  intros Hd Hwa Hnd H Hwe Rs pre mn post fv name frag g Em Hf Hl Hg n Hn.
+  destruct (step_squashed_returned _ _ _ _ _ _ Hd Hwa Hnd H Hwe Rs) as (sg & _ & _ & Hall).
+  destruct (Hall pre mn post fv name frag Em Hf Hl) as (cf0 & _ & Hnodes & _).
+  destruct (Hnodes n Hn) as (_ & _ & l & lm & Fl & Il & Fm & Im & _).
+  exists (sg (rho (fo_m2 fo) (cf0 (nk n)))), l, lm. split; [|auto].
+  destruct (step_frag_exact_iff _ _ _ _ _ _ _ _ (tmpl_dict_wf _ Hd) Hwa H Hg) as (g0 & fgs0 & _ & _ & Ek & Hex). rewrite Ek. apply Hex.
+  assert (S "fragid" <> S "atomname") as Nfa by (intros X; apply str_eqb_eq in X; vm_compute in X; discriminate).
+  rewrite (step_mol_m6 _ _ _ _ _ _ H _ _ Nfa) in Fl.
+  exists (VList l), l. split; [now apply node_get_gna|]. split; [reflexivity|exact Il].
+Qed.
